@@ -544,6 +544,10 @@ Proof.
   unfold write_tail. rewrite H5. reflexivity.
 Qed.
 
+Corollary write_idempotent_nowrap o m text m' :
+  wo_wrap o = None -> write o m = WOk text m' -> write o m' = WOk text m'.
+Proof. intros E. apply write_idempotent. intro H. contradiction. Qed.
+
 (* ---- C16: truthfulness of STRT / STOP / STEP ------------------------------------------------------ *)
 (* the unit everything is aligned to: curve 0's when it has one, else STRT's *)
 Definition aligned_unit (l : las) : list N :=
